@@ -284,8 +284,150 @@ def check(ctx, facts, cfg, clause="A3"):
                             rv = const_value(c) if c else None
                     chars[chr(int(v))] = rv
         want = {"0": None, "x": 16, "X": 16, "o": 8, "O": 8, "b": 2, "B": 2}
+        radix_parser(ctx, facts, facts.body(callee_of(t)["key"]), clause, cfg)
         ctx.check(chars == want, clause + ".radix-prefixes", "0x/0X → 16, 0o/0O → 8, 0b/0B → 2 (%s)" % cfg, "prefix characters: %s" % chars, where=f.where(bi), fn=f.key, nontrivial=True, sample={"prefixes": {k: v for k, v in chars.items()}})
     return f
+
+
+def radix_parser(ctx, facts, rp, clause, cfg):
+    """The value of the digits of a prefixed integer literal (ES NonDecimalIntegerLiteral): NaN (None)
+    for no digits or a character that is not a digit of the radix; otherwise Σ digit·radix^k —
+    through the integer parser of the standard library and/or a fold acc·radix + digit from 0."""
+    if rp is None:
+        raise Inconclusive("radix parser body not available")
+    ints = [(bi, t) for bi, t in rp.calls() if re.search(r"^core::num::<impl [ui](64|128|size)>::from_str_radix$", callee_path(t) or "")]
+    units = [rp] + [b for b in facts.fns() if b.key.startswith(rp.key + "::{closure#")]
+    folds = [(b, bi, t) for b in units for bi, t in b.calls() if re.search(r"Iterator(>)?::fold$", callee_path(t) or "")]
+    if not ints and not folds:
+        raise Inconclusive("radix parser: neither an integer parse nor a digit fold found in %s" % rp.key)
+    # ---- what is valued: the digits parameter itself, in the radix parameter
+    str_arg = [i + 1 for i, x in enumerate(facts.items[rp.key].get("inputs", [])) if x == "&str"]
+    rad_arg = [i + 1 for i, x in enumerate(facts.items[rp.key].get("inputs", [])) if x == "u32"]
+    if len(str_arg) != 1 or len(rad_arg) != 1:
+        raise Inconclusive("radix parser signature (&str, u32) not recognised")
+    sa, ra = str_arg[0], rad_arg[0]
+    for bi, t in ints:
+        a0, a1 = strip_refs(rp.trace(t["args"][0])), strip_refs(rp.trace(t["args"][1]))
+        ctx.check(a0 == ("arg", sa) and a1 == ("arg", ra), clause + ".radix-parse-args", "the integer parser is given the digits and the radix themselves (%s)" % cfg, "from_str_radix(%s, %s)" % (show_expr(a0), show_expr(a1)), where=rp.where(bi), fn=rp.key, nontrivial=True)
+    # ---- guards: non-empty and all digits of the radix, on every path to the valuation
+    targets = [bi for bi, _ in ints] or [bi for b, bi, _ in folds if b is rp]
+    created = []
+    for bi, si, st in rp.stmts():
+        if st["k"] == "Assign" and st["rv"]["k"] == "Aggregate" and st["rv"].get("agg") == "Closure":
+            created.append(bi)
+    targets = targets or created
+    nonempty, alldig = [], []
+    for sb in sorted(rp.reachable()):
+        tt = rp.blocks[sb]["term"]
+        if tt["k"] != "SwitchInt" or tt.get("dty") != "bool":
+            continue
+        e = strip_refs(rp.trace(tt["discr"]))
+        neg = False
+        while e[0] == "unop" and e[1] == "Not":
+            neg = not neg
+            e = strip_refs(e[2])
+        if e[0] != "call" or not e[1]:
+            continue
+        pth = e[1]["path"]
+        if re.search(r"PartialEq.*::(eq|ne)$", pth):
+            x, y = strip_refs(e[2][0]), strip_refs(e[2][1])
+            for p_, q_ in ((x, y), (y, x)):
+                if q_[0] == "const" and const_value(q_[1]) == "" and p_ == ("arg", sa):
+                    is_empty_truth = pth.endswith("::eq") != neg
+                    nonempty.append((sb, bool_edge(rp, sb, not is_empty_truth)))
+        elif pth.endswith("::is_empty") and strip_refs(e[2][0]) == ("arg", sa):
+            nonempty.append((sb, bool_edge(rp, sb, neg)))
+        elif re.search(r"Iterator(>)?::all$", pth):
+            it = strip_refs(e[2][0])
+            clos = strip_refs(e[2][1])
+            over_digits = it[0] == "call" and it[1]["path"] == "core::str::<impl str>::chars" and strip_refs(it[2][0]) == ("arg", sa)
+            good_pred = False
+            if clos[0] == "agg" and clos[1].get("closure"):
+                cb = facts.body(clos[1]["closure"])
+                r = strip_refs(cb.trace(0))
+                if r[0] == "call" and r[1] and r[1]["path"] == "std::char::methods::<impl char>::is_digit":
+                    c_arg = strip_refs(r[2][0])
+                    r_arg = strip_refs(cb.xtrace(cb.blocks[r[3]]["term"]["args"][1]))
+                    good_pred = c_arg == ("arg", 2) and r_arg in (("carg", rp.key, ra), ("arg", ra))
+                    if not good_pred:
+                        good_pred = c_arg == ("arg", 2) and expr_mentions(r_arg, lambda y: y == ("arg", ra))
+            ctx.check(over_digits and good_pred, clause + ".radix-digit-test", "every character of the digits must be a digit of the radix (char::is_digit(c, radix)) (%s)" % cfg,
+                      "the all-digits test is %s over %s" % (show_expr(clos)[:60], show_expr(it)[:60]), where=rp.where(sb), fn=rp.key, nontrivial=True)
+            alldig.append((sb, bool_edge(rp, sb, not neg)))
+    ctx.check(bool(nonempty), clause + ".radix-empty-test", "an emptiness test on the digits exists (%s)" % cfg, "no test for an empty digit string: `0x` alone would be a number", where=rp.where(), fn=rp.key, nontrivial=True)
+    ctx.check(bool(alldig), clause + ".radix-digit-test-site", "an all-digits test exists (%s)" % cfg, "no test that every character is a digit of the radix", where=rp.where(), fn=rp.key, nontrivial=True)
+    for ti, tb in enumerate(targets):
+        for (sb, edge) in nonempty:
+            ctx.check(edge_dominates(rp, sb, edge, tb), clause + ".radix-guard-empty", "digits are valued only when there is at least one (valuation %d, %s)" % (ti, cfg), "the valuation at %s is reachable with an empty digit string (or only with one)" % rp.where(tb), where=rp.where(sb), fn=rp.key, nontrivial=True)
+        for (sb, edge) in alldig:
+            ctx.check(edge_dominates(rp, sb, edge, tb), clause + ".radix-guard-digits", "digits are valued only when all are digits of the radix (valuation %d, %s)" % (ti, cfg), "the valuation at %s is reachable although a character is not a digit of the radix (or only then)" % rp.where(tb), where=rp.where(sb), fn=rp.key, nontrivial=True)
+    # the only other result is None
+    r = strip_refs(rp.trace(0))
+    cands = [strip_refs(x) for x in r[2]] if r[0] == "phi" else [r]
+    nones = [c for c in cands if c[0] == "agg" and c[1].get("variant") == "None"]
+    vals = [c for c in cands if c not in nones]
+    ctx.check(len(nones) >= 1 and len(vals) == 1, clause + ".radix-results", "the parser returns None or the one valuation (%s)" % cfg, "results: %s" % [show_expr(c)[:60] for c in cands], where=rp.where(), fn=rp.key, nontrivial=True)
+    # ---- the integer path: value as f64, failure falls through to the fold (or None)
+    for c in vals:
+        spine = []
+        x = c
+        while x[0] == "call" and x[1] and re.search(r"^std::(option::Option|result::Result)::<.*>::(or_else|ok|map|or|and_then)$", x[1]["path"]):
+            spine.append((x[1]["path"].rsplit("::", 1)[1], x))
+            x = strip_refs(x[2][0])
+        names = [n for n, _ in spine]
+        if ints:
+            ctx.check(x[0] == "call" and x[1] and "from_str_radix" in x[1]["path"] and "map" in names and "ok" in names, clause + ".radix-int-path", "value = from_str_radix(..).map(as f64).ok() [or the fold] (%s)" % cfg,
+                      "the valuation is %s" % show_expr(c)[:160], where=rp.where(), fn=rp.key, nontrivial=True)
+            for n, e in spine:
+                if n == "map":
+                    cl = strip_refs(e[2][1])
+                    if cl[0] == "agg" and cl[1].get("closure"):
+                        rr = strip_refs(facts.body(cl[1]["closure"]).trace(0))
+                        ctx.check(rr[0] == "cast" and rr[1] == "IntToFloat" and strip_refs(rr[2]) == ("arg", 2), clause + ".radix-int-cast", "the parsed integer is converted with `as f64` (%s)" % cfg, "the parsed integer becomes %s" % show_expr(rr), where=rp.where(), fn=rp.key, nontrivial=True)
+    # ---- the fold: from 0, acc·radix + digit
+    for (b, bi, t) in folds:
+        it = strip_refs(b.xtrace(t["args"][0]))
+        seed = strip_refs(b.trace(t["args"][1]))
+        cl = strip_refs(b.trace(t["args"][2]))
+        src_ok = it[0] == "call" and it[1]["path"] == "core::str::<impl str>::chars" and expr_mentions(it, lambda y: y in (("arg", sa), ("carg", rp.key, sa)))
+        ctx.check(src_ok, clause + ".radix-fold-source", "the fold runs over the digits, front to back (%s)" % cfg, "the fold runs over %s" % show_expr(it)[:100], where=b.where(bi), fn=b.key, nontrivial=True)
+        sv = None
+        if seed[0] == "agg" and seed[1].get("variant") == "Some":
+            s0 = strip_refs(seed[2][0])
+            sv = const_value(s0[1]) if s0[0] == "const" else None
+        elif seed[0] == "const":
+            sv = const_value(seed[1])
+        ctx.check(sv == 0.0 and sv is not None and not isinstance(sv, bool), clause + ".radix-fold-seed", "the fold starts from 0 (%s)" % cfg, "the fold starts from %s" % show_expr(seed), where=b.where(bi), fn=b.key, nontrivial=True)
+        if cl[0] == "agg" and cl[1].get("closure"):
+            cb = facts.body(cl[1]["closure"])
+            rr = strip_refs(cb.trace(0))
+            cs = [strip_refs(x) for x in rr[2]] if rr[0] == "phi" else [rr]
+            steps = []
+            for c in cs:
+                v = strip_refs(c[2][0]) if c[0] == "agg" and c[1].get("variant") == "Some" and c[2] else (c if c[0] == "binop" else None)
+                if v is not None:
+                    steps.append(v)
+            ok = False
+            how = [show_expr(v)[:120] for v in steps]
+            for v in steps:
+                if v[0] == "binop" and v[1] == "Add":
+                    for m_, d_ in ((strip_refs(v[2]), strip_refs(v[3])), (strip_refs(v[3]), strip_refs(v[2]))):
+                        if m_[0] == "binop" and m_[1] == "Mul":
+                            fs = [strip_payload(strip_cast(m_[2])), strip_payload(strip_cast(m_[3]))]
+                            is_acc = lambda y: y == ("arg", 2)
+                            is_rad = lambda y: expr_mentions(y, lambda z: z[0] == "field" and strip_refs(z[1]) == ("arg", 1)) or y == ("arg", ra)
+                            mul_ok = (is_acc(fs[0]) and is_rad(fs[1])) or (is_acc(fs[1]) and is_rad(fs[0]))
+                            dd = strip_payload(strip_cast(d_))
+                            dig_ok = dd[0] == "call" and dd[1] and dd[1]["path"] == "std::char::methods::<impl char>::to_digit" and strip_refs(dd[2][0]) == ("arg", 3)
+                            ok = ok or (mul_ok and dig_ok)
+            ctx.check(ok and len(steps) == 1, clause + ".radix-fold-step", "each step is acc·radix + digit(c) (%s)" % cfg, "the fold step is %s" % how, where=cb.where(), fn=cb.key, nontrivial=True)
+
+
+def strip_cast(e):
+    e = strip_refs(e)
+    while e[0] == "cast":
+        e = strip_refs(e[2])
+    return e
 
 
 def closure_alphabet(cb):
